@@ -398,6 +398,11 @@ func (fc *FnCtx) loopEnv(l *Loop, phiMap map[*ssa.Phi]Val, h *HeapState) *Env {
 					return v, true
 				}
 			}
+			if g, ok := fc.ghosts[name]; ok {
+				if ab := fc.ghostAt[name]; ab != nil && ab != head && ab.Dominates(head) {
+					return g, true
+				}
+			}
 			return fc.varAt(name, head, h)
 		},
 		oldLookup: fc.paramLookup,
